@@ -625,7 +625,8 @@ def run(ctx):
     acc = par.merge(par.pmap(_work, items, seed=ctx.seed, chunks_per_job=8))
     a1 = _work(items[:12])
     a2 = _work(items[:12])
-    if (a1.n, sorted(map(repr, a1.outcomes)), a1.violations) != (a2.n, sorted(map(repr, a2.outcomes)), a2.violations):
+    if (a1.n, sorted(map(repr, a1.outcomes)), sorted(x[0] for x in a1.violations)) != \
+            (a2.n, sorted(map(repr, a2.outcomes)), sorted(x[0] for x in a2.violations)):
         raise HarnessError("C22: two runs of the same histories differ")
     best = {}
     for sig, d in acc.violations:
